@@ -91,6 +91,13 @@ def make_cases(rng, tier):
         h.ts = g.ts + 5
         cont = [x for x in h.history(rng.randint(4, 15))]
         cs.append((g.price, pre + ["FORK " + lvl.VIAS[i % len(lvl.VIAS)]] + cont + ["MATCH 18446744073709551615 u7999"]))
+    for i in range(max(10, n // 100)):      # long clean prefixes
+        g = kfree.KFree(rng, cancels=False, amends=False)
+        pre = g.history(rng.randint(100, 300))
+        h = lvl.HistGen(rng, price=g.price, rebuilds=False, reads=False, forks=False)
+        h.next_id = 5000
+        h.ts = g.ts + 5
+        cs.append((g.price, pre + ["FORK " + lvl.VIAS[i % len(lvl.VIAS)]] + h.history(rng.randint(20, 80)) + ["MATCH 18446744073709551615 u7999"]))
     for i in range(n // 2):
         g = lvl.HistGen(rng, rebuilds=False, reads=False, forks=False)
         pre = g.history(rng.randint(3, 20))
